@@ -147,6 +147,14 @@ def selectType (v : Nat) : List BK → BK
 
 def intConstType (octOrHex : Bool) (s : Suffix) (v : Nat) : BK := selectType v (candidates octOrHex s)
 
+/-- the same for a CONFIGURED platform: `mx` is the table `PlatformOptions::setMaxValueOf` filled (`maxOf` is the default one) -/
+def selectTypeM (mx : BK → Nat) (v : Nat) : List BK → BK
+  | [] => .Int_S
+  | [k] => k
+  | k :: rest => if v ≤ mx k then k else selectTypeM mx v rest
+
+def intConstTypeM (mx : BK → Nat) (octOrHex : Bool) (s : Suffix) (v : Nat) : BK := selectTypeM mx v (candidates octOrHex s)
+
 /-- the flag bits of `Lexeme` that matter here -/
 structure Flags where
   l : Bool := false
